@@ -170,8 +170,33 @@ class CallGraph(object):
             return []
         return []
 
+    def _defs_named(self, f, name):
+        """Function definitions a bare name denotes in f's lexical scope or module (no dispatch table, no classes)."""
+        m = f.module
+        scope = f
+        while scope is not None:
+            if name in scope.params:
+                return []
+            c = m.funcs.get(scope.qualname + '.' + name)
+            if c:
+                return list(c)
+            scope = scope.parent
+        if name in m.funcs:
+            return list(m.funcs[name])
+        return []
+
+    def mro(self, cname, seen=None):
+        """Depth-first, left-to-right linearisation with later duplicates winning (close to C3 for this code base)."""
+        out = [cname]
+        for b in self.bases_of(cname):
+            for x in self.mro(b):
+                if x in out:
+                    out.remove(x)
+                out.append(x)
+        return out
+
     def _inherited_init(self, cname):
-        for a in [cname] + sorted(self.ancestors(cname)):
+        for a in self.mro(cname):
             for m, q in self.class_mod.get(a, []):
                 if m.funcs.get(q + '.__init__'):
                     return list(m.funcs[q + '.__init__'])
@@ -184,6 +209,12 @@ class CallGraph(object):
         for c in f.walk():
             if isinstance(c, ast.Call):
                 out.append((c, self.resolve(f, c)))
+                # functions passed as values (map(f, xs), _make_list(repr_fn, ...), reduce(f, ...)) are called by the callee
+                for a in list(c.args) + [k.value for k in c.keywords]:
+                    if isinstance(a, ast.Name):
+                        t = self._defs_named(f, a.id)
+                        if t:
+                            out.append((c, t))
             elif isinstance(c, ast.Subscript) and isinstance(c.ctx, (ast.Store, ast.Del)):
                 dunder = '__setitem__' if isinstance(c.ctx, ast.Store) else '__delitem__'
                 recv = unparse(c.value)
@@ -310,6 +341,8 @@ class ExcFlow(object):
                 ok, v = try_const(n.right)
                 if not (ok and isinstance(v, int) and v >= 0):
                     out.append((n, 'ValueError', 'shift by a non-constant (negative count)'))
+                if isinstance(n.op, ast.LShift) and not (ok and isinstance(v, int) and v < 4096):
+                    out.append((n, 'MemoryError', 'left shift by an unbounded count'))
         elif isinstance(n, ast.Assign) and isinstance(n.targets[0], ast.Tuple) and \
                 not any(isinstance(e, ast.Starred) for e in n.targets[0].elts):
             v = n.value
@@ -388,13 +421,30 @@ class ExcFlow(object):
 
     # -- guards that discharge implicit sites ----------------------------------------------------
     def discharged(self, f, node, cls, desc):
-        conds = path_conditions(f.module, f, node)
+        conds = []
+        for t, pol, how in path_conditions(f.module, f, node):
+            # a true conjunction makes every conjunct true; a false disjunction makes every disjunct false
+            if isinstance(t, ast.BoolOp) and ((isinstance(t.op, ast.And) and pol) or (isinstance(t.op, ast.Or) and not pol)):
+                conds.extend((v, pol, how) for v in t.values)
+            else:
+                conds.append((t, pol, how))
+        if cls == 'ValueError' and desc.startswith('int()') and isinstance(node, ast.Call) and node.args:
+            arg = unparse(node.args[0])
+            for t, pol, how in conds:
+                if how.startswith('early-exit') and pol is False and unparse(t) in ('not _is_int(%s)' % arg,):
+                    return '_is_int guard'
+                if pol and unparse(t) == '_is_int(%s)' % arg:
+                    return '_is_int guard'
         if cls == 'ValueError' and desc.startswith('unpacking'):
             n = len(node.targets[0].elts)
             v = unparse(node.value)
             for t, pol, how in conds:
                 s = unparse(t).replace(' ', '')
                 if how.startswith('early-exit') and pol is False and s == ('len(%s)!=%d' % (v, n)).replace(' ', ''):
+                    return 'len guard'
+                # `a, b = words[:2]` after `if len(words) < 2: raise`
+                base = v[:-len('[:%d]' % n)] if v.endswith('[:%d]' % n) else None
+                if base and how.startswith('early-exit') and pol is False and s == ('len(%s)<%d' % (base, n)).replace(' ', ''):
                     return 'len guard'
             return None
         if cls == 'KeyError':
@@ -468,6 +518,18 @@ class ExcFlow(object):
         changed = True
         rounds = 0
         local = {id(f): self.local_sites(f) for f in funcs}
+        # construct keys are alpha-normalised (stable under renaming of locals); when two *different* constructs of one
+        # function collapse to the same normal form the original text is kept so that they stay distinct
+        self._keytext = {}
+        for f in funcs:
+            groups = {}
+            for node, cls, desc in local[id(f)]:
+                tgt = node.exc if isinstance(node, ast.Raise) and node.exc is not None else node
+                groups.setdefault((cls, norm_key(f, tgt)), set()).add(unparse(tgt))
+            for node, cls, desc in local[id(f)]:
+                tgt = node.exc if isinstance(node, ast.Raise) and node.exc is not None else node
+                nk = norm_key(f, tgt)
+                self._keytext[(id(f), id(node))] = nk if len(groups[(cls, nk)]) == 1 else ' '.join(unparse(tgt).split())
         calls = {id(f): self.cg.calls_of(f) for f in funcs}
         # `with cm(...)`: a generator context manager's except clauses guard the with-body
         while changed and rounds < 50:
@@ -483,8 +545,9 @@ class ExcFlow(object):
                             continue
                         # re-raises whatever the handler caught: approximated by callee/explicit escapes of the try body
                         continue
-                    key = '%s|%s' % (f.fq, norm_key(f, node if not isinstance(node, ast.Raise) else node.exc))
-                    sk = (f.fq, norm_key(f, node if not isinstance(node, ast.Raise) else node.exc))
+                    kt = self._keytext[(id(f), id(node))]
+                    key = '%s|%s' % (f.fq, kt)
+                    sk = (f.fq, kt)
                     if sk in self.safe:
                         self.used_safe[sk] = self.safe[sk]
                         continue
@@ -507,6 +570,14 @@ class ExcFlow(object):
                 if set(new) != set(cur):
                     summ[id(f)] = new
                     changed = True
+        # for the roots: through which first-hop callees does each escape leave (all of them, not just the first found)
+        self.root_routes = {}
+        for f in roots:
+            for c, targets in calls[id(f)]:
+                for g in targets:
+                    for (cls, key) in summ.get(id(g), {}):
+                        if self.caught(f, c, cls) is None and not self._with_guard(f, c, cls):
+                            self.root_routes.setdefault((cls, key), set()).add(g.fq)
         self.summaries = {by_id[i].fq: v for i, v in summ.items()}
         self.funcs = funcs
         return {f.fq: summ[id(f)] for f in roots}
